@@ -193,7 +193,8 @@ def staged_check(rep, rule, key, S, body, args, steps, final, loc=None, sample=N
                 env2[name] = env[name] if name in matched else fn(R, env2)
             exp = final(R, env2)
         except (Opaque, poly.TooBig) as ex:
-            return rep.fail(rule, key, "reference not constructible after matching: %s" % ex, loc or S.F.loc(body))
+            return rep.fail(rule, key, "published quantities with no `let` of equal value in the code: %s (the first one is where the code departs from the "
+                            "reference; expanding them in the final formula exceeded the work budget: %s)" % (missing[:4], ex), loc or S.F.loc(body))
     try:
         mm = alg.compare(v, exp, S.ctx)
     except (Opaque, poly.TooBig) as ex:
